@@ -360,6 +360,9 @@ def str_eq(a, b, ctx=None):
 MEMBER = z3.Function("intset_member", INT, INT, BOOL)
 
 
+_UNBOUND = object()      # receiver placeholder of an unbound built-in method (str.lower, ...)
+
+
 class TypeName(object):
     """A python builtin type used as a value (isinstance targets, constructors)."""
 
@@ -2201,6 +2204,8 @@ class Exec(object):
             raise Raised(AttributeError, line, implicit=True, note=name)
         if isinstance(o, (PList, PDict, PSet, SStr, str, bytes, SList, PIter)):
             return NativeMethod(o, name)
+        if isinstance(o, TypeName) and o.t in (str, list, dict, bytes) and hasattr(o.t, name):
+            return NativeMethod(_UNBOUND, name)
         if isinstance(o, FileObj):
             if name == "data":
                 return o.data
@@ -2266,6 +2271,10 @@ class Exec(object):
             return self.instantiate(f.cls, args, kwargs, line)
         if isinstance(f, NativeMethod):
             from . import builtins_model
+            if f.recv is _UNBOUND:       # str.lower(s), list.append(l, x): the receiver is the first argument
+                if not args:
+                    raise Raised(TypeError, line, implicit=True)
+                return builtins_model.native_method(self, args[0], f.name, list(args[1:]), kwargs, line)
             return builtins_model.native_method(self, f.recv, f.name, args, kwargs, line)
         if isinstance(f, (Builtin, TypeName)):
             from . import builtins_model
